@@ -1,25 +1,64 @@
+# C06 - SASL exchanges follow their RFCs; a server that cannot prove itself is refused
 MODELS = ['c06_pre.c', 'qt_core.c', 'qt_list.c', 'qt_dom.c', 'c06_models.c']
+KF_USER = 'scram_username_unescaped'        # DESIGN D7
+KF_SUCCESS = 'success_before_server_proof'  # DESIGN D6
 def I(name, entry, cfg=(), **kw):
-    d = dict(name=name, entry=entry, unwind=8, timeout_s=300, mem_gb=6, bound='')
+    d = dict(name=name, entry=entry, unwind=8, timeout_s=150, mem_gb=6, bound='')
     d['cdefs'] = {}
     for i, v in enumerate(cfg): d['cdefs']['C06_CFG%d' % i] = v
     d['cdefs'].update(kw.pop('cdefs', {})); d.update(kw); return d
+B_ASCII = 'user name / password: arbitrary ASCII (1..127) units of the stated length; digests: %d symbolic bytes' % 4
 SPEC = dict(
     property='C06',
     groups=[
-        dict(name='scram', harness='h_scram.cpp', tus=[], models=MODELS, cxxdefs={'C06_GS2LEN': 8}, loop_bounds={r'^_ZN13QConcatenableI10QByteArrayE8appendTo': 48},
+        dict(name='scram', harness='h_scram.cpp', tus=[], models=MODELS,
+             loop_bounds={r'^_ZN13QConcatenableI10QByteArrayE8appendTo': 48},
              instances=[
-                 I('scram_first', 'h_scram_first', (2, 2, 1)),
-                 I('scram_first_kf', 'h_scram_first_kf', (2, 2, 1), known_finding='scram_username_unescaped'),
-                 I('scram_exchange', 'h_scram_exchange', (2, 1, 1, 3, 2, 1), unwind=12),
-                 I('scram_refuse_attrs', 'h_scram_refuse_attrs', (1, 1, 1, 2), unwind=12),
-                 I('scram_final_any', 'h_scram_final_any', (1, 1, 1), unwind=12),
+                 I('scram_first', 'h_scram_first', (2, 2, 1), bound='client nonce 2 bytes, user name 2 units, password 1 unit; ' + B_ASCII),
+                 I('scram_first_kf', 'h_scram_first_kf', (2, 2, 1), known_finding=KF_USER, bound='as scram_first'),
+                 I('scram_exchange', 'h_scram_exchange', (2, 0, 1, 3, 2, 1), unwind=12,
+                   bound='client nonce 2 bytes, server nonce field 3 bytes, salt field 2 bytes, iteration field 1 byte (all arbitrary, no ","), password 1 unit, all 4 SCRAM hashes; server-final v= arbitrary 4-byte signature'),
+                 I('scram_refuse_attrs', 'h_scram_refuse_attrs', (1, 0, 1, 2), unwind=12,
+                   bound='3 attributes "k e v v" of 4 arbitrary bytes each (no "," inside), client nonce 1 byte'),
+                 I('scram_final_any', 'h_scram_final_any', (1, 1, 1), unwind=12, bound='server-final = 10 arbitrary bytes without ",", arbitrary stored signature of 4 bytes'),
+                 I('parse_gs2', 'h_parse_gs2', (5, 1), unwind=10, timeout_s=120, tiers=('quick',), cdefs={'LIST_CAP': 2}, bound='arbitrary message of <= 5 bytes with <= 1 comma'),
+                 I('parse_gs2_6', 'h_parse_gs2', (6, 2), unwind=10, timeout_s=200, tiers=('thorough',), bound='arbitrary message of <= 6 bytes with <= 2 commas'),
+                 I('plain', 'h_plain', (2, 2), bound='user name 2 units, password 2 units; ' + B_ASCII),
+                 I('ht', 'h_ht', (2, 2), bound='user name 2 units, token 2 units, all 7 hash names x all 4 channel-binding types for the stored token, challenge 0..1 bytes'),
+                 I('hash_names', 'h_ht_alg', (), unwind=4, bound='all mechanism hash names'),
              ]),
-        dict(name='mgr', harness='h_mgr.cpp', tus=['src/base/QXmppSasl.cpp', 'src/base/QXmppUtils.cpp'], models=MODELS, ranges_shim=True, shadow_task=True, cxxdefs={'_GLIBCXX_RANGES': 1},
-             instances=[
-                 I('sasl_manager', 'h_sasl_manager', (), unwind=12, cdefs={'C06_SERIALIZE_VIA_HARNESS': 1}),
-                 I('sasl2_manager', 'h_sasl2_manager', (), unwind=12, cdefs={'C06_SERIALIZE_VIA_HARNESS': 1}),
-             ]),
+        dict(name='mgr', harness='h_mgr.cpp', tus=['src/base/QXmppSasl.cpp', 'src/base/QXmppUtils.cpp', 'src/base/QXmppStreamManagement.cpp'], models=MODELS,
+             ranges_shim=True, shadow_task=True, cxxdefs={'_GLIBCXX_RANGES': 1},
+             loop_bounds={r'^_Z8qstrnlenPKcj': 40, r'^_ZN13QConcatenableI10QByteArrayE8appendTo': 48},
+             instances=
+                 [I(p + '_' + n, 'h_%s_manager' % p, cfg, unwind=12,
+                    bound='arbitrary pending state: SCRAM step in {1,2,3}, arbitrary stored signature (4 bytes); element <%s/> %s' % (n.split('_')[0], 'carrying v=<arbitrary 4-byte signature>' if cfg[0] else 'without data'))
+                  for p in ('sasl', 'sasl2')
+                  for (n, cfg) in (('success_nodata', (0, 0)), ('success_data', (1, 0)), ('challenge', (1, 1)), ('failure', (0, 2)), ('other', (0, 3)))] +
+                 [I('sasl_success_kf', 'h_sasl_manager_kf', (0, 0), unwind=12, known_finding=KF_SUCCESS, bound='as sasl_success_nodata'),
+                  I('sasl2_success_kf', 'h_sasl2_manager_kf', (0, 0), unwind=12, known_finding=KF_SUCCESS, bound='as sasl2_success_nodata')]),
     ],
-    bounds=[], assumptions=[], outside=[],
+    bounds=[
+        'strings have a fixed length per instance (stated per instance) and arbitrary contents; all lengths are small (<= 3 units per field)',
+        'digests (hash / HMAC / PBKDF2 outputs) are 4 symbolic bytes',
+        'SCRAM server-first: honest shape r=..,s=..,i=.. with arbitrary field contents (scram_exchange) or 3 attributes with arbitrary names and values (scram_refuse_attrs); values contain no ","',
+        'managers: one handleElement step from an arbitrary pending state (inductive step; invariant: SCRAM step 3 is reached only through a matching server signature)',
+    ],
+    assumptions=[
+        'crypto = recording oracle: QCryptographicHash::hash, QMessageAuthenticationCode (static and incremental), QPasswordDigestor::deriveKeyPbkdf2 return fresh symbolic bytes, equal for equal (primitive, algorithm, inputs); no other property of the primitives is used (no collision freedom, so "no server holding a different secret accepts" is outside)',
+        'base64 is modelled by an injective code whose image avoids "," and "=" (2 letters per byte), except the literal base64("n,,") = "biws" which is kept; decoding text outside the image yields an arbitrary (but per text fixed) result',
+        'QByteArray::toInt on ordinary text yields an arbitrary but per text fixed (value, ok); the digit grammar is Qt\'s',
+        'UTF-8 codec is the identity on ASCII; user names and passwords are ASCII (SASLprep / normalisation is outside the property)',
+        'the client nonce is printable without "," (RFC 5802); it is injected through QXmppSaslDigestMd5::setNonce as the test-suite does',
+        'QMap<char,QByteArray> is a class-level model with slots for the keys r,s,i,v (reading any other key is asserted not to happen)',
+        'QXmppLoggable/QObject construction without parent, signals go nowhere; QDateTime is an opaque word',
+        'managers: QXmppTask/QXmppPromise = assume-guarantee shadow (C13); serializeXml is cut (the bytes sent are not inspected, only counted)',
+    ],
+    outside=[
+        'DIGEST-MD5 (respond, calculateDigest, parseMessage/serializeMessage): not covered in this round',
+        'parseGS2 on messages whose values contain "," (more than the stated number of pieces), server messages longer than the stated field lengths',
+        'non-ASCII user names / passwords, SASLprep, channel binding (gs2 header is always "n,,"), real digest lengths (only the dkLen argument = hash length is checked)',
+        'contents of the <response/> / <abort/> stanzas written by the managers; FAST token handling; Sasl2 <continue/> tasks',
+        'ANONYMOUS, X-FACEBOOK, X-GOOGLE, X-WINDOWS-LIVE mechanisms',
+    ],
 )
